@@ -220,6 +220,16 @@ def Err.isLimit : Err → Bool
   | .disabledTag => false
   | _ => true
 
+/-- the exception class of the implementation that each model error stands for -/
+def Err.pyName : Err → String
+  | .outputLimit => "OutputStreamLimitError"
+  | .nsLimit => "LocalNamespaceLimitError"
+  | .loopLimit => "LoopIterationLimitError"
+  | .contextDepth => "ContextDepthError"
+  | .blockNesting => "BlockNestingError"
+  | .notFound => "TemplateNotFoundError"
+  | .disabledTag => "DisabledTagError"
+
 /-- an output buffer: bytes counted so far (`LimitedStringIO.size`) and the text written -/
 structure Buf where
   size : Nat
@@ -403,6 +413,28 @@ def boundRender (c : Cx) (w : W) (bind : Option (Bool × Expr × String)) : Boun
 
 /-! ## Rendering (STRICT mode: the first error aborts) -/
 
+/-- a check of the form `if measure > limit: raise e` in front of a computation -/
+@[macro_inline] def guardE (b : Bool) (e : Err) (k : Res) : Res := if b then .error e else k
+
+/-- sequencing in STRICT mode: an error propagates, otherwise continue from the state reached -/
+def bindR (a : Res) (f : W → Res) : Res :=
+  match a with
+  | .error e => .error e
+  | .ok w => f w
+
+/-- `CycleNode.render_to_output`, the part that does not touch the buffer: evaluate the arguments,
+`context.cycle(key, len(args))`; returns the updated state and the chosen argument (if the index is in range) -/
+def cyclePick (c : Cx) (w : W) (group : Text) (args : List Expr) : W × Option Val :=
+  let vals := args.map (eval c w)
+  let key := if group ≠ [] then CycleKey.named group else CycleKey.byArgs vals
+  let st := cycleStep w.cycles key vals.length
+  ({ w with cycles := st.2 }, vals[st.1]?)
+
+def cycleW (c : Cx) (bk : BK) (w : W) (group : Text) (args : List Expr) : Res :=
+  match (cyclePick c w group args).2 with
+  | none => .ok (cyclePick c w group args).1
+  | some v => writeW bk (cyclePick c w group args).1 (toStr v)
+
 mutual
 /-- `Node.render(context, buffer)` -/
 def render (L : Limits) (P : Prog) (c : Cx) (bk : BK) (w : W) : Node → Res
@@ -410,77 +442,69 @@ def render (L : Limits) (P : Prog) (c : Cx) (bk : BK) (w : W) : Node → Res
   | .output e => writeW bk w (toStr (eval c w e))
   | .assign name e => assignW L P c w name (eval c w e)
   | .capture name body =>
-      match renderBlock L P c (subKind L bk w.buf) { w with buf := ⟨0, []⟩ } body (blankList body) with
-      | .error e => .error e
-      | .ok w1 => assignW L P c { w1 with buf := w.buf } name (.sc (.str w1.buf.text))
+      bindR (renderBlock L P c (subKind L bk w.buf) { w with buf := ⟨0, []⟩ } body (blankList body))
+        fun w1 => assignW L P c { w1 with buf := w.buf } name (.sc (.str w1.buf.text))
   | .ifchanged body =>
-      match renderBlock L P c (subKind L bk w.buf) { w with buf := ⟨0, []⟩ } body (blankList body) with
-      | .error e => .error e
-      | .ok w1 =>
-        let val := w1.buf.text
-        if val ≠ w1.ifch then writeW bk { w1 with buf := w.buf, ifch := val } val
-        else .ok { w1 with buf := w.buf }
-  | .cycle group args =>
-      let vals := args.map (eval c w)
-      let key := if group ≠ [] then CycleKey.named group else CycleKey.byArgs vals
-      let (idx, cs) := cycleStep w.cycles key vals.length
-      let w1 := { w with cycles := cs }
-      match vals[idx]? with
-      | none => .ok w1
-      | some v => writeW bk w1 (toStr v)
+      bindR (renderBlock L P c (subKind L bk w.buf) { w with buf := ⟨0, []⟩ } body (blankList body))
+        fun w1 =>
+          if w1.buf.text ≠ w1.ifch then writeW bk { w1 with buf := w.buf, ifch := w1.buf.text } w1.buf.text
+          else .ok { w1 with buf := w.buf }
+  | .cycle group args => cycleW c bk w group args
   | .ifn cond body els =>
       if truthy (eval c w cond) then renderBlock L P c bk w body (blankList body && blankList els)
       else renderBlock L P c bk w els (blankList body && blankList els)
   | .forn var src body dflt =>
-      let items := toIter (eval c w src)
-      if items.length ≠ 0 then
-        if loopOver L.loop c items.length then .error .loopLimit else
-        if _h : c.scope > L.depth then .error .contextDepth else
-        iter L P { c with loops := c.loops ++ [items.length], scope := c.scope + 1 } bk w var body items
+      if (toIter (eval c w src)).length ≠ 0 then
+        -- context.loop: raise_for_loop_limit; loops.append; extend
+        guardE (loopOver L.loop c (toIter (eval c w src)).length) .loopLimit
+          (if _h : c.scope > L.depth then .error .contextDepth else
+            iter L P { c with loops := c.loops ++ [(toIter (eval c w src)).length], scope := c.scope + 1 } bk w var body
+              (toIter (eval c w src)))
       else renderBlock L P c bk w dflt (blankList dflt)
   | .include name bind args =>
-      if c.noInclude then .error .disabledTag else
-      match lookupA P.templates name with
-      | none => .error .notFound
-      | some body =>
-        if nestList body > L.nesting then .error .blockNesting else
-        if _h : c.scope > L.depth then .error .contextDepth else
-        let c1 := { c with pushed := evalArgs c w args :: c.pushed, scope := c.scope + 1 }
-        match boundInclude c1 w bind with
-        | .none => renderPartial L P c1 bk w body
-        | .one key v => renderPartial L P (bindVar false c1 key v) bk w body
-        | .many key items =>
-          if loopOver L.loop c1 items.length then .error .loopLimit else
-          iterPartial L P { c1 with carry := c1.carry * items.length } bk w false key body items
+      guardE c.noInclude .disabledTag
+        (match lookupA P.templates name with
+        | none => .error .notFound
+        | some body =>
+          guardE (decide (nestList body > L.nesting)) .blockNesting
+            (if _h : c.scope > L.depth then .error .contextDepth else
+              match boundInclude { c with pushed := evalArgs c w args :: c.pushed, scope := c.scope + 1 } w bind with
+              | .none => renderPartial L P { c with pushed := evalArgs c w args :: c.pushed, scope := c.scope + 1 } bk w body
+              | .one key v =>
+                  renderPartial L P (bindVar false { c with pushed := evalArgs c w args :: c.pushed, scope := c.scope + 1 } key v)
+                    bk w body
+              | .many key items =>
+                  guardE (loopOver L.loop { c with pushed := evalArgs c w args :: c.pushed, scope := c.scope + 1 } items.length)
+                    .loopLimit
+                    (iterPartial L P { c with pushed := evalArgs c w args :: c.pushed, scope := c.scope + 1,
+                                              carry := c.carry * items.length } bk w false key body items)))
   | .render name bind args =>
       match lookupA P.templates name with
       | none => .error .notFound
       | some body =>
-        if nestList body > L.nesting then .error .blockNesting else
-        if _h : c.copyDepth > L.depth then .error .contextDepth else
-        let cc := copied P c w (evalArgs c w args)
-        match boundRender c w bind with
-        | .none => restoreW w (renderPartial L P cc bk (freshW w) body)
-        | .one key v => restoreW w (renderPartial L P (bindVar true cc key v) bk (freshW w) body)
-        | .many key items =>
-          if loopOver L.loop cc items.length then .error .loopLimit else
-          restoreW w (iterPartial L P { cc with carry := cc.carry * items.length } bk (freshW w) true key body items)
+        guardE (decide (nestList body > L.nesting)) .blockNesting
+          (if _h : c.copyDepth > L.depth then .error .contextDepth else
+            match boundRender c w bind with
+            | .none => restoreW w (renderPartial L P (copied P c w (evalArgs c w args)) bk (freshW w) body)
+            | .one key v =>
+                restoreW w (renderPartial L P (bindVar true (copied P c w (evalArgs c w args)) key v) bk (freshW w) body)
+            | .many key items =>
+                guardE (loopOver L.loop (copied P c w (evalArgs c w args)) items.length) .loopLimit
+                  (restoreW w (iterPartial L P { copied P c w (evalArgs c w args) with
+                      carry := (copied P c w (evalArgs c w args)).carry * items.length } bk (freshW w) true key body items)))
 termination_by n => (L.depth + 2 - c.copyDepth, L.depth + 2 - c.scope, sizeOf n, 0)
 decreasing_by all_goals (simp_wf; simp only [Prod.lex_def, copied, bindVar_scope, bindVar_copyDepth, true_and]; omega)
 
 /-- `BlockNode.render(context, buffer)`: a blank block goes to a `NullIO` -/
 def renderBlock (L : Limits) (P : Prog) (c : Cx) (bk : BK) (w : W) (nodes : List Node) (blank : Bool) : Res :=
-  if blank then renderList L P c .null w nodes else renderList L P c bk w nodes
+  renderList L P c (if blank then .null else bk) w nodes
 termination_by (L.depth + 2 - c.copyDepth, L.depth + 2 - c.scope, sizeOf nodes, 1)
 decreasing_by all_goals (simp_wf; simp only [Prod.lex_def, true_and]; omega)
 
 /-- `for node in nodes: node.render(context, buffer)` -/
 def renderList (L : Limits) (P : Prog) (c : Cx) (bk : BK) (w : W) : List Node → Res
   | [] => .ok w
-  | n :: ns =>
-      match render L P c bk w n with
-      | .error e => .error e
-      | .ok w1 => renderList L P c bk w1 ns
+  | n :: ns => bindR (render L P c bk w n) fun w1 => renderList L P c bk w1 ns
 termination_by ns => (L.depth + 2 - c.copyDepth, L.depth + 2 - c.scope, sizeOf ns, 0)
 decreasing_by all_goals (simp_wf; simp only [Prod.lex_def, true_and]; omega)
 
@@ -488,9 +512,8 @@ decreasing_by all_goals (simp_wf; simp only [Prod.lex_def, true_and]; omega)
 def iter (L : Limits) (P : Prog) (c : Cx) (bk : BK) (w : W) (var : String) (body : List Node) : List Scalar → Res
   | [] => .ok w
   | itm :: rest =>
-      match renderBlock L P { c with pushed := [(var, .sc itm)] :: c.pushed } bk w body (blankList body) with
-      | .error e => .error e
-      | .ok w1 => iter L P c bk w1 var body rest
+      bindR (renderBlock L P { c with pushed := [(var, .sc itm)] :: c.pushed } bk w body (blankList body))
+        fun w1 => iter L P c bk w1 var body rest
 termination_by items => (L.depth + 2 - c.copyDepth, L.depth + 2 - c.scope, sizeOf body, items.length + 2)
 decreasing_by all_goals (simp_wf; simp only [Prod.lex_def, true_and]; omega)
 
@@ -506,16 +529,15 @@ def iterPartial (L : Limits) (P : Prog) (c : Cx) (bk : BK) (w : W) (inGlobals : 
     (body : List Node) : List Scalar → Res
   | [] => .ok w
   | itm :: rest =>
-      match renderPartial L P (bindVar inGlobals c key (.sc itm)) bk w body with
-      | .error e => .error e
-      | .ok w1 => iterPartial L P c bk w1 inGlobals key body rest
+      bindR (renderPartial L P (bindVar inGlobals c key (.sc itm)) bk w body)
+        fun w1 => iterPartial L P c bk w1 inGlobals key body rest
 termination_by items => (L.depth + 2 - c.copyDepth, L.depth + 2 - c.scope, sizeOf body + 1, items.length + 1)
 decreasing_by all_goals (simp_wf; simp only [Prod.lex_def, bindVar_scope, bindVar_copyDepth, true_and]; omega)
 end
 
 /-- `Environment.from_string(source)` (parse: block nesting) followed by `BoundTemplate.render(**globals)` -/
 def renderTemplate (L : Limits) (P : Prog) (nodes : List Node) : Res :=
-  if nestList nodes > L.nesting then .error .blockNesting else
+  guardE (decide (nestList nodes > L.nesting)) .blockNesting <|
   let c : Cx := { pushed := [], globals := P.globals, loops := [], carry := 1, copyDepth := 0, scope := 4,
                   noInclude := false, nsCarry := 0 }
   let w : W := { locals := [], cycles := [], ifch := [], buf := ⟨0, []⟩, log := [] }
